@@ -1109,3 +1109,29 @@ Proof.
     split; [reflexivity|]. repeat split; try reflexivity.
     intros (ch & H & _). discriminate.
 Qed.
+
+(* ------------------------------------------------------------------ statements as used by Props/C36.v *)
+
+Lemma concat_accepts_unconditional_all :
+  concatenate [] = Err IndexError /\
+  (forall d, concatenate [d] = Ok d) /\
+  (forall ds, (2 <= length ds)%nat ->
+     ((exists r, concatenate ds = Ok r) <->
+        same_on descr ds /\ same_on sres ds /\ chain (isort ds)) /\
+     (forall e, concatenate ds = Err e -> e = ValueError)).
+Proof. exact (conj concat_nil (conj concat_single concat_accepts_unconditional)). Qed.
+
+Lemma isort_is_stable_sort : forall ds,
+  Permutation (isort ds) ds /\
+  StronglySorted (fun a b => istart a <= istart b) (isort ds) /\
+  forall k, filter (fun x => istart x =? k) (isort ds) = filter (fun x => istart x =? k) ds.
+Proof. exact (fun ds => conj (isort_perm ds) (conj (isort_sorted ds) (fun k => isort_stable k ds))). Qed.
+
+Lemma last_cover_spec_all : forall ds s,
+  (forall d s, covers d s = true <->
+     sstart d <= s < sstop d /\ s - sstart d < istop d - istart d) /\
+  (forall v, last_cover ds s = Some v <->
+     exists l1 d l2, ds = l1 ++ d :: l2 /\ covers d s = true /\ v = row_of d s /\
+                     forall d', In d' l2 -> covers d' s = false) /\
+  (last_cover ds s = None <-> forall d, In d ds -> covers d s = false).
+Proof. exact (fun ds s => conj covers_spec (conj (last_cover_some ds s) (last_cover_none ds s))). Qed.
